@@ -32,6 +32,7 @@ pub enum Op<'a> {
     DupCell(usize),
     RemoveSat(usize),
     RemoveCell(usize),
+    ClearCells,
 }
 
 fn permute<T: Clone>(s: &mut [T], perm: &[usize]) {
@@ -77,6 +78,7 @@ macro_rules! msm_access {
                         Op::DupCell(i) => { let e = d.signal_data[i].clone(); if d.signal_data.len() >= 64 { return false; } d.signal_data.push(e) }
                         Op::RemoveSat(i) => { d.satellite_data.remove(i); }
                         Op::RemoveCell(i) => { d.signal_data.remove(i); }
+                        Op::ClearCells => d.signal_data.clear(),
                     }
                     true
                 })*
@@ -489,6 +491,10 @@ fn check_type(rep: &mut Report, number: u16, tier: Tier, part: u32) {
             let mut x = m.clone();
             apply(&mut x, Op::RemoveCell(1));
             expect_err(rep, number, &x, "SatelliteMismatch", "satellite only in the satellite list");
+            // satellites listed, but no signal cell at all
+            let mut x = m.clone();
+            apply(&mut x, Op::ClearCells);
+            expect_err(rep, number, &x, "SatelliteMismatch", "satellites without any signal cell");
         } else {
             let mut x = m.clone();
             apply(&mut x, Op::SetCellSat(0, 2));
